@@ -10,6 +10,7 @@ import (
 	"fmt"
 	"math/rand"
 
+	"github.com/invopop/gobl/bill"
 	"github.com/invopop/gobl/cbc"
 	"github.com/invopop/gobl/l10n"
 	"github.com/invopop/gobl/org"
@@ -27,15 +28,17 @@ type idCase struct {
 	Kind  string `json:"kind"`
 }
 type idEvent struct {
-	CC      string `json:"cc"`
-	Kind    string `json:"kind"`
-	Raw     []int  `json:"raw"`
-	Norm    []int  `json:"norm"`     // what the code normalised the raw text to
-	Norm2   []int  `json:"norm2"`    // ... and normalised again
-	Ok      bool   `json:"ok"`       // accepted by validation
-	PartyOk bool   `json:"party_ok"` // the same verdict through a party carrying the identity
-	Panic   bool   `json:"panic"`
-	Err     string `json:"err"`
+	CC       string `json:"cc"`
+	Kind     string `json:"kind"`
+	Raw      []int  `json:"raw"`
+	Norm     []int  `json:"norm"`      // what the code normalised the raw text to
+	Norm2    []int  `json:"norm2"`     // ... and normalised again
+	Ok       bool   `json:"ok"`        // accepted by validation
+	PartyOk  bool   `json:"party_ok"`  // the same verdict through a party carrying the identity
+	Host     string `json:"host"`      // a document regime under which a party carrying the identity was normalised ...
+	HostNorm []int  `json:"host_norm"` // ... and what the identity became (the first host that alters it, else the own normal form)
+	Panic    bool   `json:"panic"`
+	Err      string `json:"err"`
 }
 
 func idRun(cc string, raw []int, kind string) (ev idEvent) {
@@ -60,8 +63,20 @@ func idRun(cc string, raw []int, kind string) (ev idEvent) {
 	p := &org.Party{Name: "X", TaxID: &tax.Identity{Country: l10n.TaxCountryCode(cc), Code: cbc.Code(fromCps(raw))}}
 	p.Normalize(nil)
 	ev.PartyOk = p.TaxID.Validate() == nil
+	// the party inside documents of other regimes: the host's normalisers must leave a foreign identity alone
+	ev.Host, ev.HostNorm = cc, ev.Norm
+	for _, host := range idHosts {
+		hp := &org.Party{Name: "X", TaxID: &tax.Identity{Country: l10n.TaxCountryCode(cc), Code: cbc.Code(fromCps(raw))}}
+		hp.Normalize(tax.ExtractNormalizers(&bill.Invoice{Regime: tax.WithRegime(l10n.TaxCountryCode(host))}))
+		if got := cps(string(hp.TaxID.Code)); fmt.Sprint(got) != fmt.Sprint(ev.Norm) {
+			ev.Host, ev.HostNorm = host, got
+			break
+		}
+	}
 	return ev
 }
+
+var idHosts = []string{"FR", "DE", "ES", "PT", "IT", "GB", "NL", "PL", "AT", "BE", "CH", "EL", "BR", "CO", "MX", "IN", "AE", "CA", "US"}
 
 var idAlphabets = map[string]struct {
 	lens  []int
